@@ -29,3 +29,5 @@ import LapyVerif.Bridge.Spectral2
 #print axioms LapyVerif.Props.C18.fixnum_spec
 #print axioms LapyVerif.Props.C18.fixnum_eq
 #print axioms LapyVerif.Bridge.misc_invstereo
+#print axioms LapyVerif.Bridge.census_HeatKernel_pcCount
+#print axioms LapyVerif.Bridge.census_Misc_pcCount
